@@ -304,7 +304,9 @@ def execute(case):
       if x['op'] in ('sel.Top', 'sel.Bottom'):
         x['_no_fitness'] = True
 
-  def run(population):
+  def run(population, global_seed=20240):
+    # every operator of the expression carries its own seed: the state of the process-wide generator is not an input
+    random.seed(global_seed)
     op = build_op(expr, len(population) >= 2)
     return op(population, step=0)
   what = 'expr=%r parents=%r shape=%r' % (expr, [p.to_numbers() for p in pop], shape)
@@ -370,7 +372,7 @@ def execute(case):
   # determinism of the seeded expression
   pop2 = make_pop()
   try:
-    out2 = run(list(pop2))
+    out2 = run(list(pop2), global_seed=977)
   except Exception as e:   # pylint: disable=broad-except
     return res.violate('second run of the same seeded expression raised %r; %s' % (e, what), law='nondeterministic', how='raises', **sig)
   flat1 = [tuple(c.to_numbers()) for c in flat]
